@@ -105,7 +105,7 @@ ProvMembers == {{}, {Member(1, "fa", "same")}, {Member(1, "fa", "org"), Member(2
 Prov == {[Base("prov") EXCEPT !.mode = md, !.allow = ProvAllow, !.reqs = q, !.self = Rev("fa", "same", refs),
                               !.members = ms, !.pre = pre] :
           md \in {"cr", "secure", "noallow"}, q \in ReqOpts, refs \in RefLists, ms \in ProvMembers,
-          pre \in {"none", "roles"}}
+          pre \in {"none", "roles", "wide"}}
 
 Dep(n, o, sa) == [name |-> n, owner |-> o, sa |-> sa]
 DepOpts(n) == {{}} \cup {{Dep(n, o, sa)} : o \in {"self", "selfnc", "other", "none"}, sa \in {"sa1", "sa2"}}
